@@ -49,28 +49,36 @@ def check_array_common(case, rec):
     a = numpy.array(flat, dtype=numpy.int64).reshape(case["shape"])
     if a.size == 0:
         return
+    a = c01.as_given(a, case.get("in_dtype", "int64"), case.get("layout", "C"))
+    extra = [v for v in case.get("counts_extra", []) if v not in set(flat)]
     kwargs = {}
     if case["counts"]:
         kwargs["counts"] = {v: flat.count(v) for v in sorted(set(flat))}
+        for v in extra:
+            kwargs["counts"][v] = 0  # the variable's whole category list, absent categories with count 0
     m = None
     if case["mapping"] is not None:
         m = {k: v for k, v in case["mapping"]}
-        m = {k: v for k, v in m.items() if k in set(flat)}
+        m = {k: v for k, v in m.items() if k in set(flat) or (case["counts"] and k in extra)}
         kwargs["mapping"] = dict(m)
-    try:
-        ix = iindex.from_array(a, **kwargs)
-    except Exception:
-        rec.note("from_array raised (C01 decides that)")
-        return
     mapped = flat if m is None else [m[x] for x in flat]
     counts = {}
     for v in mapped:
         counts[v] = counts.get(v, 0) + 1
     best = max(counts.values())
-    if counts.get(ix.common, 0) != best:
-        raise Violation("from_array chose common %r which occurs %d times; %r occurs %d times" % (
-            ix.common, counts.get(ix.common, 0), max(counts, key=counts.get), best),
-            sig="from_array: chosen common is not a most frequent value")
+    # the caller keeps its counts / mapping dicts and passes them again (another variable with the same categories,
+    # a retry): every one of these conversions must pick a most frequent value
+    for turn in range(3):
+        try:
+            ix = iindex.from_array(a, **kwargs)
+        except Exception:
+            rec.note("from_array raised (C01 decides that)")
+            return
+        if counts.get(ix.common, 0) != best:
+            raise Violation("from_array (call %d with the same counts / mapping objects) chose common %r which occurs "
+                            "%d times; %r occurs %d times" % (turn + 1, ix.common, counts.get(ix.common, 0),
+                                                              max(counts, key=counts.get), best),
+                            sig="from_array: chosen common is not a most frequent value")
     rec.note("class=" + case["cls"], "mapping=" + case["mapkind"])
     top = [v for v, c in counts.items() if c == best]
     if len(counts) >= 2 and (len(top) >= 2 or m is not None):
